@@ -4,6 +4,8 @@ import (
 	"fmt"
 	"sort"
 	"strings"
+	"sync"
+	"sync/atomic"
 	"testing"
 	"time"
 
@@ -106,6 +108,52 @@ func c16Cell(t *testing.T, cause, cond string, order int, will, clean bool, seed
 			if w.sink == nil {
 				return
 			}
+			// Schedule steering (delays only, at the library's yield points): once X reads again, P's
+			// processor does not take the next packet out of its inbound ring before P's receiver, which
+			// refills the ring from the pending traffic, is waiting for room again. That is the state in
+			// which the ending packet has to be handled: ring full, receiver parked, nobody else to free it.
+			var pmu sync.Mutex
+			parks := map[interface{}]int{}
+			psig := make(chan struct{}, 64)
+			var steer atomic.Bool
+			hook := func(pt string, obj interface{}) {
+				switch pt {
+				case "buf.wspace.prewait":
+					pmu.Lock()
+					parks[obj]++
+					pmu.Unlock()
+					select {
+					case psig <- struct{}{}:
+					default:
+					}
+				case "buf.readwait.prelock":
+					if !steer.Load() {
+						return
+					}
+					pmu.Lock()
+					n0 := parks[obj]
+					pmu.Unlock()
+					if n0 == 0 {
+						return // not a ring whose producer ever had to wait
+					}
+					deadline := time.After(20 * time.Millisecond) // virtual time
+					for {
+						pmu.Lock()
+						n := parks[obj]
+						pmu.Unlock()
+						if n > n0 {
+							return
+						}
+						select {
+						case <-psig:
+						case <-deadline:
+							return
+						}
+					}
+				}
+			}
+			yieldAnyBuf.Store(&hook)
+			cl.add(func() { yieldAnyBuf.Store(nil) })
 			X.PauseReading()
 			base := w.sink.count("proc.handled", "P")
 			blocked := false
@@ -135,7 +183,15 @@ func c16Cell(t *testing.T, cause, cond string, order int, will, clean bool, seed
 				out.Inconclusive("c16: the publisher ended before the subscriber resumed", params)
 				return
 			}
+			steer.Store(true)
 			X.ResumeReading()
+			settle()
+			// the steering hook may be sitting on its (virtual) timer: let virtual time pass
+			for k := 0; k < 40 && w.sink.count("stop.done", "P") == 0; k++ {
+				time.Sleep(25 * time.Millisecond)
+				settle()
+			}
+			steer.Store(false)
 			settle()
 			if n := w.sink.count("stop.done", "P"); n != 1 {
 				var where []string
